@@ -6,7 +6,7 @@ from .common import *
 
 META = {
     "level": "other",
-    "explanation": "Protocol structure of construct/lib/containers.py and hex.py: (R1) Container.__eq__ is mirror-symmetric: identity short-cut, non-dict -> False, then two loops that are mirror images of each other under self<->other (same iteration primitive, the same skip predicate `isinstance(k, str) and k.startswith('_')`, the same failure condition `k not in <the other side> or not isequal(v, <the other side>[k])`), True otherwise; __ne__ is `not ==`; (R2) copy/__copy__ build self.__class__(self); __deepcopy__ must take part in the memo protocol and deep-copy the values; pickling must restore the __dict__-is-self aliasing that __init__ establishes; (R3) dict protocol calls inside Container methods go through the class (`self.__class__.<m>(self)` / `dict.<m>`), never through instance attribute lookup that a key could shadow; (R4) hexdump/hexundump column agreement: one prologue and two epilogue lines are written and the reader drops exactly [1:-2]; the hex field is left-justified to 3*linesize-1 columns in every size branch and the reader cuts the line at 3*linesize after the offset column, so it covers the hex field and can never reach the printable column; both are parametrised by the same linesize; (R5) ListContainer subclasses list without overriding equality, iteration, length or indexing; _search of Container and ListContainer treat `None` (not falsiness) as 'no match'.",
+    "explanation": "Protocol structure of construct/lib/containers.py and hex.py: (R1) Container.__eq__ is mirror-symmetric: identity short-cut, non-dict -> False, then two loops that are mirror images of each other under self<->other (same iteration primitive, the same skip predicate `isinstance(k, str) and k.startswith('_')`, the same failure condition `k not in <the other side> or not isequal(v, <the other side>[k])`), True otherwise; __ne__ is `not ==`; (R2) copy/__copy__ build self.__class__(self); __deepcopy__ must take part in the memo protocol and deep-copy the values; pickling must restore the __dict__-is-self aliasing that __init__ establishes; (R3) dict protocol calls inside Container methods go through the class (`self.__class__.<m>(self)` / `dict.<m>`), never through instance attribute lookup that a key could shadow; (R4) hexdump/hexundump column agreement: one prologue and two epilogue lines are written and the reader drops exactly [1:-2]; the hex field is left-justified to 3*linesize-1 columns in every size branch and the reader cuts the line at 3*linesize after the offset column, so it covers the hex field and can never reach the printable column; both are parametrised by the same linesize; (R5) ListContainer subclasses list without overriding equality, iteration, length or indexing; _search of Container and ListContainer treat `None` (not falsiness) as 'no match'. R1 also: Container overrides __ne__ (dict.__ne__ would not ignore underscore entries); R5 also: _search descends only into classes that define _search.",
     "undecided": "Algebraic laws over all container values (transitivity, congruence), search/search_all result lists, hexundump(hexdump(x)) == x as a value equation.",
     "trusted_base": ["python ast (3.12)", "sa.summ summariser"],
     "assumptions": ["element equality is symmetric"],
